@@ -2689,4 +2689,58 @@ theorem fitter_replaceAround_undo_partial (S : Schema) (hdet : PM.C11.detB S = t
   obtain ⟨⟨⟨⟨hwf, hins⟩, g1⟩, g2⟩, g3⟩ := hsh
   exact replaceAround_undo_partial S doc doc' doc'' F T G1 G2 sl ins b inv hn hsn hwf hins ⟨g1, g2, g3⟩ h1 hi h2
 
+/-- what is still asked of the step a **deletion** (`Transform.delete` = `replace(f, t, Slice.empty)`) records,
+    once its payload validity is a theorem (C11 `delete_emits_valid_payload`): for a `ReplaceStep` only the
+    normal form of its slice and pair-alignment; for a `ReplaceAroundStep` (the Fitter moved the rest of a
+    textblock) the full guard, whose payload conjunct speaks about the slice *with the gap inserted* -/
+def DeleteResidual (S : Schema) (tr tr1 : Tr) : Prop :=
+  HistAll (fun s d d' =>
+    match s with
+    | .replace _ _ sl _ => fnorm sl.content = true ∧ s.undoAligned d'
+    | _ => FamilyGuard S s d d') (appended tr tr1) tr1.doc
+
+/-- **deletions need no payload hypothesis**: for `delete` / the `delete_range` call, `OpResidual` (what
+    `opHistory_undo` asks of the operation) follows from `DeleteResidual` — the `C01.PayloadValid` conjunct
+    of the family guard of the recorded `ReplaceStep` is discharged by `C11.delete_emits_valid_payload`
+    (guards `detB`, `leafOkB`; the document valid with creatable element types) -/
+theorem delete_residual (S : Schema) (hdet : PM.C11.detB S = true) (hleaf : PM.FromDom.leafOkB S = true)
+    (tr tr1 : Tr) (hlen : tr.steps.length = tr.docs.length) (hv : C01.Valid S tr.doc)
+    (hattrs : S.nodeAttrsOK tr.doc = true) (f t : Nat)
+    (h : tr.runOp S (.replace f t Slice.empty) = some tr1) (hres : DeleteResidual S tr tr1) :
+    OpResidual S (.replace f t Slice.empty) tr tr1 := by
+  have h' : tr.planned (fun st => st.replaceF S f t Slice.empty) = some tr1 := h
+  obtain ⟨st', hrun, htr⟩ := Tr.planned_some h'
+  obtain ⟨r, hr, hstep⟩ := PSt.replaceF_spec S { tr := tr } st' f t Slice.empty hrun
+  simp only at hr hstep
+  cases r with
+  | none =>
+    simp only at hstep
+    have e : tr1.hist = tr.hist ++ [] := by rw [← htr, hstep]; simp
+    show HistAll (FamilyGuard S) (appended tr tr1) tr1.doc
+    rw [appended_eq e]
+    trivial
+  | some s =>
+    simp only at hstep
+    rw [htr] at hstep
+    obtain ⟨e, _⟩ := Tr.step_hist hlen hstep
+    show HistAll (FamilyGuard S) (appended tr tr1) tr1.doc
+    unfold DeleteResidual at hres
+    rw [appended_eq e] at hres ⊢
+    refine ⟨?_, trivial⟩
+    have hs := hres.1
+    obtain ⟨sl', hsl, hval⟩ := PM.C11.delete_emits_valid_payload S hdet hleaf tr.doc f t hv hattrs s hr
+    cases s with
+    | replace F T sl b =>
+      simp only at hs
+      simp only [Step.sliceOf, Option.some.injEq] at hsl
+      subst hsl
+      exact ⟨hs.1, hval, hs.2⟩
+    | replaceAround F T G1 G2 sl ins b => exact hs
+    | addMark _ _ _ => exact hs
+    | removeMark _ _ _ => exact hs
+    | attr _ _ _ => exact hs
+    | docAttr _ _ => exact hs
+    | addNodeMark _ _ => exact hs
+    | removeNodeMark _ _ => exact hs
+
 end PM.C04
